@@ -93,8 +93,53 @@ class Body:
 
     def succs(self, bb):
         if self._succ is None:
-            self._succ = [self._succs_of(i) for i in range(len(self.blocks))]
+            raw = [self._succs_of(i) for i in range(len(self.blocks))]
+            self._succ = self._thread_const_bools(raw)
         return self._succ[bb]
+
+    def _thread_const_bools(self, raw):
+        """Jump threading for materialised conditions: a block that ends `L = const c; goto Q` where Q
+        (without reassigning L) switches on L goes straight to the edge c selects. Removes only infeasible paths
+        (`a && b`, `a || b`, `matches!(..)` are built this way in mir_built)."""
+        out = [list(x) for x in raw]
+        for q, blk in enumerate(self.blocks):
+            t = blk["t"]
+            if t.get("k") != "switch" or "p" not in t["d"] or t["d"]["p"][1]:
+                continue
+            L = t["d"]["p"][0]
+            # Q may copy L first: `_t = L; switch _t` is handled when Q's only statements are that copy chain
+            chain = {L}
+            ok = True
+            for st in blk["s"]:
+                rv = st[1]
+                if st[0][0] in chain and not st[0][1]:
+                    if rv.get("k") == "use" and "p" in rv["o"] and not rv["o"]["p"][1]:
+                        chain.add(rv["o"]["p"][0])
+                    else:
+                        ok = False
+            if not ok:
+                continue
+            for p in range(len(self.blocks)):
+                if raw[p] != [q] or self.blocks[p]["t"].get("k") != "goto":
+                    continue
+                val = None
+                for st in self.blocks[p]["s"]:
+                    if st[0][0] in chain and not st[0][1]:
+                        rv = st[1]
+                        if rv.get("k") == "use" and "p" not in rv["o"] and rv["o"].get("v") is not None and rv["o"].get("ty") == "bool":
+                            val = str(rv["o"]["v"])
+                        else:
+                            val = None
+                if val is None:
+                    continue
+                tgt = None
+                for v, tg in t["vals"]:
+                    if v == val:
+                        tgt = tg
+                if tgt is None:
+                    tgt = t["else"]
+                out[p] = [tgt]
+        return out
 
     def _succs_of(self, bb):
         t = self.blocks[bb]["t"]
@@ -225,20 +270,41 @@ class Body:
         """Blocks that put an error into the return place: `?` residual propagation,
         `_0 = Result::Err(..)` / `Option::None`-free; plus calls matching extra patterns."""
         out = set()
+        rvs = self.return_value_locals()
         for i, b in enumerate(self.blocks):
             t = b["t"]
             if t.get("k") == "call":
                 cal = t.get("callee") or ""
-                if cal.endswith("FromResidual::from_residual") and t["dest"][0] == 0:
+                if cal.endswith("FromResidual::from_residual") and t["dest"][0] in rvs:
                     out.add(i)
                 for p in extra_call_pats:
                     if rx(p).search(cal) or rx(p).search(t.get("res") or ""):
                         out.add(i)
             for st in b["s"]:
                 pl, rv = st[0], st[1]
-                if pl[0] == 0 and not pl[1] and rv.get("k") == "agg" and rv.get("adt") == "core::result::Result" and rv.get("variant") == "Err":
+                if pl[0] in rvs and not pl[1] and rv.get("k") == "agg" and rv.get("adt") == "core::result::Result" and rv.get("variant") == "Err":
                     out.add(i)
         return out
+
+    _rvs = None
+
+    def return_value_locals(self):
+        """locals whose value flows into the return place by plain moves/copies (`let r = ..; return r`)"""
+        if self._rvs is None:
+            rvs = {0}
+            changed = True
+            while changed:
+                changed = False
+                for b in self.blocks:
+                    for st in b["s"]:
+                        rv = st[1]
+                        if st[0][0] in rvs and not st[0][1] and rv.get("k") == "use" and "p" in rv["o"] and not rv["o"]["p"][1]:
+                            l = rv["o"]["p"][0]
+                            if l not in rvs and l > self.argc:
+                                rvs.add(l)
+                                changed = True
+            self._rvs = rvs
+        return self._rvs
 
     # ------------------------------------------------------------ names / defs
     def local_names(self):
@@ -506,6 +572,14 @@ class Facts:
         if b is None:
             raise AnchorLost(path)
         return b
+
+    def one(self, crate, pat, kind=("Fn", "AssocFn")):
+        """the single fn/method body of `crate` whose path matches regex `pat` (fail closed otherwise)"""
+        r = rx(pat)
+        bs = [b for b in self.bodies_of_crate(crate) if b.kind in kind and r.search(b.path)]
+        if len(bs) != 1:
+            raise AnchorLost("%s ~ /%s/ matched %d bodies" % (crate, pat, len(bs)))
+        return bs[0]
 
     def find(self, crate, pat):
         r = rx(pat)
